@@ -74,7 +74,7 @@ class ProgGen(object):
         self.sym_fams = []
         self.buf_written = set()
         self.table = [rng.getrandbits(8) for _ in range(TABLE_LEN)]
-        self.table_rate = 0.2
+        self.table_rate = 0.25
 
     # ---- helpers
     def k(self, name):
@@ -653,7 +653,7 @@ class ProgGen(object):
                 cells = [c | (0xffffff00 if c & 0x80 else 0) for c in cells]
             width = 8
         self.taint.update((idx, val))
-        where = rng.choice(["last", "last", "first", "middle", "absent", "absent"])
+        where = rng.choice(["last", "last", "first", "first", "middle", "absent", "absent"])
         if where == "last":
             tgt = cells[-1]
         elif where == "first":
